@@ -12,9 +12,13 @@
      - (Tier B) the table handed to the emitter holds exactly the demands of the items of the
        machine, so a rejection is a conflict between two such demands and an acceptance means
        there was none (C04_table_is_exactly_the_demands).
-   NOT proved: C04_exact (generate = Ok  <->  the LALR(1) automaton of the grammar, as defined
-   from canonical LR(1) item sets merged by core, has no conflict): the lookahead sets of the
-   machine are proved closed and justified, not proved LEAST.
+     - (exactness) for a validated file and the automaton the generator builds for it — closed
+       item sets, one state per LR(0) core, lookahead sets LEAST (C11.v, C17.v) — a table is
+       produced if and only if no two items of one state ask for different actions on the same
+       lookahead (C04_table_exactly_when_conflict_free): generate accepts exactly the grammars
+       whose LALR(1) automaton (least-fixpoint sense) is conflict-free.
+   NOT proved: that this least-fixpoint LALR(1) automaton coincides with the textbook one defined
+   from canonical LR(1) item sets merged by core.
    Decided per grammar by the check against a brute-force canonical-LR(1)-then-merge reference. *)
 From Coq Require Import List.
 From Kiki Require Import Base.Ord Base.Chars Data LR.Driver LR.Grammar LR.Validate LR.ValidateProofs
@@ -30,7 +34,8 @@ Theorem C04_valid_tables_mean_unambiguous :
                 yield t1 = yield t2 -> t1 = t2.
 Proof. exact @validated_unambiguous. Qed.
 
-From Kiki Require Import Build.FillProofs Build.TableSpec Emit.Parser Pipeline PipelineProofs.
+From Coq Require Import Permutation.
+From Kiki Require Import Ast.VWF Build.FillProofs Build.TableSpec Build.MachineSpec Build.GenCorrect Build.NoPanic Emit.Parser Pipeline PipelineProofs.
 
 Theorem C04_accepted_grammars_are_unambiguous :
   forall {P} (kind : P -> nat) ho digest src out text pt,
@@ -44,7 +49,18 @@ Theorem C04_table_is_exactly_the_demands : forall m f ho t,
   perm_ho ho -> machine_to_table ho m f = Ok t -> table_spec m f t.
 Proof. exact machine_to_table_spec. Qed.
 
+Theorem C04_table_exactly_when_conflict_free : forall hot hoa fu v m,
+  VWF v -> (forall l, Permutation (hot l) l) -> perm_ho hoa ->
+  validated_ast_to_machine hot fu v = Ok m ->
+  ((exists t, machine_to_table hoa m v = Ok t) <-> conflict_free m v).
+Proof.
+  intros hot hoa fu v m HV Hpt Hpa Hm.
+  destruct (machine_is_the_lalr_automaton hot fu v m Hpt Hm) as (cx & Hr & Hs & HM & _).
+  exact (table_iff_conflict_free v cx m hoa HV Hr Hs HM Hpa).
+Qed.
+
 Print Assumptions C04_error_means_conflict.
+Print Assumptions C04_table_exactly_when_conflict_free.
 Print Assumptions C04_valid_tables_mean_unambiguous.
 Print Assumptions C04_accepted_grammars_are_unambiguous.
 Print Assumptions C04_table_is_exactly_the_demands.
